@@ -64,6 +64,13 @@ class _:
                                     continue
                                 yield dict(shape=list(shp), kind=kind, R=R, order=list(order), init=init, optdims=optd,
                                            fixsigns=bool(rng.randrange(2)), printitn=rng.choice([0, 1, 2]), seed=rng.randrange(10**6))
+        # data of very small / very large norm: the reported quantities are relative, the formulas must not switch
+        # with the scale of the data (only data whose norm is exactly zero / undefined uses the substitute formula)
+        for kind in ("dense", "sparse", "ttensor"):
+            for scale in (1e-10, 1e-13, 1e9):
+                for init in ("given", "random"):
+                    yield dict(shape=[4, 3, 3], kind=kind, R=2, order=[0, 1, 2], init=init, optdims=None, fixsigns=True,
+                               printitn=rng.choice([0, 1]), seed=rng.randrange(10**6), scale=scale)
 
     def run(self, case):
         ttb = import_pyttb()
@@ -75,9 +82,10 @@ class _:
         if case["kind"] == "ttensor":
             G = rs.randn(*[min(2, d) for d in shp])
             V = [rs.randn(d, min(2, d)) for d in shp]
-            data = ttb.ttensor(ttb.tensor(G), V)
+            data = ttb.ttensor(ttb.tensor(G * case.get("scale", 1.0)), V)
             X = np.asarray(data.full().data)
         else:
+            X = X * case.get("scale", 1.0)
             data = _data(ttb, case["kind"], X, rs)
         normX = np.linalg.norm(X)
         if case["init"] == "given":
@@ -145,7 +153,7 @@ class _:
                     raise Fail("returned-guess-differs:given", f"{case}")
             elif maxit == 2:
                 M2, _, out2 = ttb.cp_als(data, R, init=Minit, maxiters=maxit, **kw)
-                if np.abs(kden(M2) - Xm).max() > 1e-9 * max(1.0, np.abs(Xm).max()):
+                if np.abs(kden(M2) - Xm).max() > 1e-9 * max(1.0 if "scale" not in case else 0.0, np.abs(Xm).max()):
                     raise Fail(f"returned-guess-not-the-one-used:{case['init']}", f"{case}")
         # fit never gets worse from one iteration count to the next
         for a, b in zip(fits, fits[1:]):
@@ -174,6 +182,14 @@ class _:
                 for init in ("random", "nvecs", "given"):
                     for ranks in ([min(2, d) for d in shp], [d for d in shp], 1):
                         yield dict(alg="tucker_als", shape=list(shp), order=list(order), init=init, ranks=ranks, seed=rng.randrange(10**6), exact=bool(rng.randrange(2)))
+        # a dominant term plus noise of comparable total energy spread over many small spectral components: the rank choice
+        # has to add up the discarded tail, no single component is above the threshold on its own
+        for shp in ([6, 6, 6], [7, 5, 6]) if tier == "quick" else ([6, 6, 6], [7, 5, 6], [8, 8, 4], [5, 5, 5, 3]):
+            for seq in (True, False):
+                for tol in (0.3, 0.2, 0.4):
+                    for noise in (0.1, 0.2):
+                        yield dict(alg="hosvd", shape=list(shp), order=list(range(len(shp))), seq=seq, tol=tol, ranks=None,
+                                   seed=rng.randrange(10**6), scale=1.0, noisy=noise)
         # single-precision data (the decomposition itself must be carried out in double precision): tolerances at the
         # scale of the small spectral components
         for seq in (True, False):
@@ -192,6 +208,9 @@ class _:
         shp, N = tuple(case["shape"]), len(case["shape"])
         if case["alg"] == "hosvd":
             X = (_lowrank(rs, shp, 2, noise=0.05)) * case["scale"]
+            if case.get("noisy"):
+                X = _lowrank(rs, shp, 1, nonneg=True)
+                X = X / np.linalg.norm(X) + case["noisy"] * rs.randn(*shp) / np.sqrt(X.size) * 3
             if case.get("f32"):
                 comps = [np.multiply.outer(np.multiply.outer(*[np.linalg.qr(rs.randn(d, 4))[0][:, j] for d in shp[:2]]), np.linalg.qr(rs.randn(shp[2], 4))[0][:, j]) for j in range(4)]
                 X = (comps[0] + 3e-4 * (comps[1] + comps[2] + comps[3])).astype(np.float32)
